@@ -85,4 +85,8 @@ PROPS = {
         "rule": "timer definitions (date, duration, cycle Rn|R / start|now / interval / optional end, n in 0..3) on clock.Mock, on the real clock.Host code under the simulator's fake time, and inside a process with a timer catch event (optionally behind a task); clock histories of 1..6 non-decreasing values drawn from the grid {500ms before, 1ns before, exactly at, 1ns after, far beyond, unchanged} around every due instant and the end bound; cancellation before a drawn step; the run is brought to quiescence after every step; oracle: independent arithmetic over the history (never early, exact count, spacing by construction of the reference, end bound, silent after cancel, channel closed); distinct = schedule hash; non-trivial = more than one clock step",
         "oracle": "reference arithmetic over the clock history",
     },
+    "C18": {
+        "level": "exploration", "quick_s": 30, "thorough_s": 600, "thorough_seeds": 4,
+        "rule": "definitions with 1..3 executable processes (0..2 tasks each, so some finish at once) or one executable process that throws to a waiting process (instantiated at its start event) and optionally to a listening catch event of a second executable process; 1..3 ProcessSet.WaitUntilComplete calls, sequential or concurrent; oracle: one token game per process instance (instances created per throw), completion iff all instances done, exactly one CeaseProcessSetTrace, wake count of the catch event; distinct = schedule hash; non-trivial = >1 process or >1 wait and a context switch",
+    },
 }
